@@ -213,7 +213,7 @@ def check_node(cfg, node):
                         'refine() with non-empty marks of active cells given as %s raised %s' % (op['container'], st), i)
             if op['kind'] == 'region' and not st.startswith('ValueError'):
                 return ('refine-region-raises:' + st.split(':')[0], 'refine_region raised ' + st, i)
-        bad = check_state(cfg, ob, default_marking)
+        bad = check_state(cfg, ob, default_marking) or check_boundary_queries(ob)
         if bad:
             return (bad[0], bad[1], i)
         # refine_region refines exactly the active cells of level lv whose centre satisfies the predicate
@@ -340,6 +340,80 @@ def ob_numbers(ob, with_tables):
     return out
 
 
+def encl(shape, l):
+    l = [list(x) for x in l]
+    if any(len(x) != len(shape) or any(not (0 <= i < n) for i, n in zip(x, shape)) for x in l):
+        return [999999]
+    return [len(l)] + [ravel(shape, x) for x in l]
+
+
+def enco(x):
+    if isinstance(x, str):
+        return [0]
+    return [1, len(x)] + [int(i) for i in x]
+
+
+def bd_numbers(ob):
+    """Mirror of Tie.bd_obs on the implementation's boundary / Dirichlet / smoothing report."""
+    b = ob['bdq']
+    L = ob['L']
+    fs = ob['numdofs']
+    out = []
+    pairs = [(lv, i) for lv in range(L) for i in range(L)]
+    x = b['index_dirichlet']
+    out += [999999] if isinstance(x, str) else [v for lv, i in pairs for v in enc(fs[i], x[lv][i])]
+    for name in ('new', 'cell_supp', 'cell_supp_all', 'global'):
+        x = b[name]
+        out += [999999] if isinstance(x, str) else [v for lv, i in pairs for v in encl(fs[i], x[lv][i])]
+    for name in ('smooth_new', 'smooth_cell_supp', 'dirichlet_dofs'):
+        x = b[name]
+        out += [0] * L if isinstance(x, str) else [v for lv in range(L) for v in enco(x[lv])]
+    out += enco(b['non_dirichlet_dofs'])
+    if b['with_boundary']:
+        bb = b['boundary']
+        if isinstance(bb, str):
+            out += [0]
+        else:
+            out += [1, bb['L']]
+            for k, lv in enumerate(bb['levels']):
+                cs, fsb = bb['numspans'][k], bb['numdofs'][k]
+                out += enc(cs, lv[0]) + enc(cs, lv[1]) + enc(fsb, lv[2]) + enc(fsb, lv[3])
+            out += enco(bb['mapping'])
+    return out
+
+
+def check_boundary_queries(ob):
+    """Independent oracle for the Dirichlet dofs and the boundary mapping: a function lies on the
+    boundary (ax, side) iff its index on that axis is 0 resp. numdofs-1.  Returns None or (slug, text)."""
+    b = ob.get('bdq')
+    if not b or 'flatf' not in ob:
+        return None
+    fs = ob['numdofs']
+
+    def on(f, bd):
+        l, idx = f[0], f[1:]
+        return idx[bd[0]] == (0 if bd[1] == 0 else fs[l][bd[0]] - 1)
+    exp = [i for i, f in enumerate(ob['flatf']) if any(on(f, bd) for bd in b['bds'])]
+    dd = b['dirichlet_dofs']
+    if isinstance(dd, str) or isinstance(b['non_dirichlet_dofs'], str):
+        return ('dirichlet-raises', 'dirichlet_dofs/non_dirichlet_dofs raised: %s' % (dd if isinstance(dd, str) else b['non_dirichlet_dofs']))
+    if sorted(dd[-1]) != exp:
+        return ('dirichlet-dofs', 'dirichlet_dofs() = %s, the active functions on the boundaries %s are %s' % (sorted(dd[-1])[:10], b['bds'], exp[:10]))
+    if b['non_dirichlet_dofs'] != [i for i in range(len(ob['flatf'])) if i not in set(exp)]:
+        return ('non-dirichlet-dofs', 'non_dirichlet_dofs() is not the complement of the boundary functions')
+    if b['with_boundary'] and not isinstance(b.get('boundary'), str):
+        bb = b['boundary']
+        expm = [i for i, f in enumerate(ob['flatf']) if on(f, b['bd'])]
+        if bb['mapping'] != expm:
+            return ('boundary-mapping', 'boundary(%s) maps to %s, the active functions on that side are %s' % (b['bd'], bb['mapping'][:10], expm[:10]))
+        if not bb['truncate_disparity_kept']:
+            return ('boundary-attrs', 'boundary() does not keep truncate/disparity')
+        nb = sum(len(lv[2]) for lv in bb['levels'])
+        if nb != len(expm):
+            return ('boundary-numdofs', 'boundary space has %d active functions for %d boundary functions' % (nb, len(expm)))
+    return None
+
+
 def coq_case(cfg, node, tables_last=True):
     axes = '[' + ';'.join('mk_axis %d %s' % (ax['p'], cmi(ax['mults'])) for ax in cfg['axes']) + ']'
     disp = 'None' if cfg['disparity'] is None else '(Some %d)' % cfg['disparity']
@@ -348,13 +422,20 @@ def coq_case(cfg, node, tables_last=True):
     last = max([i for i, ob in enumerate(node['obs']) if ob is not None], default=-1)
     for i, (op, ob) in enumerate(zip(node['ops'], node['obs'])):
         if ob is None or stop:
-            steps.append('(%s,false,false,[],false)' % coq_op(cfg, op))
+            steps.append('(%s,false,false,[],None,false)' % coq_op(cfg, op))
             exps.append('None')
             continue
         wt = tables_last and i == last
         qs = '[' + ';'.join('(%d,%d,%s,%s)' % (q['l'], q['k'], cset(q['cells']), cset(q['funcs'])) for q in ob['queries']) + ']'
-        steps.append('(%s,%s,%s,%s,true)' % (coq_op(cfg, op), cbool('inc' in ob), cbool(wt), qs))
-        exps.append('Some ([' + ';'.join(str(x) for x in ob_numbers(ob, wt)) + ']%N)')
+        nums = ob_numbers(ob, wt)
+        bq = 'None'
+        if ob.get('bdq'):
+            b = ob['bdq']
+            bq = '(Some (%s,(%d,%d),%s))' % ('[' + ';'.join('(%d,%d)' % tuple(x) for x in b['bds']) + ']', b['bd'][0], b['bd'][1],
+                                            cbool(b['with_boundary']))
+            nums = nums + bd_numbers(ob)
+        steps.append('(%s,%s,%s,%s,%s,true)' % (coq_op(cfg, op), cbool('inc' in ob), cbool(wt), qs, bq))
+        exps.append('Some ([' + ';'.join(str(x) for x in nums) + ']%N)')
         if status_code(ob['status']) == 2:
             stop = True     # the histories diverge after an unexpected exception
     return '(%s, %s,\n  [%s],\n  [%s])' % (axes, disp, ';\n   '.join(steps), ';\n   '.join(exps))
@@ -459,7 +540,7 @@ def gen_cases(ctx):
 
 # ---------------------------------------------------------------------------
 
-def run_driver(ctx, cases, nproc=8):
+def run_driver(ctx, cases, nproc=4):
     """Run the cases on the implementation, spread over several interpreter processes."""
     ctx.impl.build()
     big = [c for c in cases if c['mode'] == 'tree' and c['max_nodes'] > 2000]
@@ -496,7 +577,9 @@ def run(ctx):
         'cell_support_extension/function_support_extension/support/supported_in on seeded arguments',
         'float conjuncts (THB partition of unity, non-negativity, HB<->THB inverse, same space, independence by rank) are NOT proved: '
         'checked on the implementation only, bound MAT_TOL=%g (derivation in harness/props/c04.py)' % MAT_TOL,
-        'not modelled: copy.deepcopy, scipy sparse formats, boundary(), smoothing-index lists (C11), prolongators (C05)',
+        'boundary(), index_dirichlet, dirichlet/non_dirichlet_dofs, new/cell_supp/global_indices, indices_to_smooth(new, cell_supp) are modelled '
+        '(coq/C04/Boundary.v) and compared exactly for seeded bdspecs; not modelled: trunc/func_supp index lists (need the sparsity pattern '
+        'of the floating-point prolongation matrices), copy.deepcopy, scipy sparse formats, prolongators (C05)',
     ]
     cases = gen_cases(ctx)
     import os
@@ -646,19 +729,21 @@ META = {
                  'about an executable sorted-list-set model of TPMesh/HMesh/HSpace + exact correspondence (inside Coq) of every '
                  'set, returned mark set, incidence matrix, relation and support query with the implementation on exhaustive '
                  'and random histories + an independent geometric oracle evaluated on the implementation',
-    'level_text': 'Theorems (Coq 8.16, unbounded: any dimension, degrees, knot multiplicities, disparity >= 1 or inf, any list of '
+    'level_text': 'Theorems (Coq 8.16, unbounded: any dimension, degrees, knot multiplicities <= p+1, disparity >= 1 or inf, any list of '
                   'refine/refine_region calls whose marks are currently active cells): reachable_cells_inv (active/deactivated cells '
-                  'partition Omega_k, Omega_0 = all cells, Omega_{k+1} = children of deactivated_k, last level has no deactivated '
-                  'cells), active_cells_tile (every finest-level cell has exactly one active ancestor-or-self), canonical_order + '
-                  'flat_lists_complete (flat lists strictly increasing in (level, lexicographic index) and complete), '
-                  'marks_any_container (result independent of container type/order/repetitions of the marks; repaired behaviour), '
-                  'activity_characterisation_step (one refinement keeps: active iff supp in Omega_k and not in Omega_{k+1}, '
-                  'deactivated iff in both). PARTIAL: activity_characterisation_partial (the same for every history, under the '
-                  'hypothesis that the suppfunc/meshsupp tables of every level are dual -- checked against the implementation on '
-                  'every run, not proved); disparity_admissible_partial (the marking closure terminates, contains the marks, consists '
-                  'of active cells; the admissibility bound itself is explored, not proved). NOT PROVED (tie/oracle only, bound 1e-8): '
-                  'THB partition of unity and non-negativity, HB<->THB inverse and same space, linear independence (rank); incidence '
-                  'matrix and support queries are defined geometrically in the model and compared exactly, no theorem.',
+                  'partition Omega_k, Omega_0 = all cells, Omega_{k+1} = children of deactivated_k), active_cells_tile (every finest-level '
+                  'cell has exactly one active ancestor-or-self), tables_consistent (on every level of every valid hierarchy suppfunc is dual '
+                  'to meshsupp, supports non-empty and inside the mesh), activity_characterisation (for every reachable state: active iff '
+                  'supp in Omega_k and not in Omega_{k+1}, deactivated iff in both; no hypothesis beyond validity of the initial mesh), '
+                  'canonical_order + flat_lists_complete, marks_any_container (repaired behaviour), incidence_spec + incidence_shape_spec '
+                  '(entry (i,j) = 1 iff function i is non-zero on active cell j, canonical indexing), cell_function_queries_agree, '
+                  'support_queries_dual, cell/function_support_extension_is_support_extension (the queries are the sets their names say), '
+                  'marking_closure_closed (the refined marks are closed under the disparity neighbourhood, default and truncated marking), '
+                  'disparity_admissible_partial_cells (cell-level condition implies admissibility) + admissible_iff_incidence. '
+                  'NOT PROVED: that every reachable state satisfies the cell condition (needs nestedness of support extensions across '
+                  'levels; admissibility itself is explored on the implementation after every call); THB partition of unity / '
+                  'non-negativity, HB<->THB inverse / same space, linear independence (tie and oracle only, bound 1e-8). boundary(), '
+                  'Dirichlet and smoothing (new, cell_supp, global) index lists are modelled and compared exactly, without theorems.',
     'level_note': 'Trusted: Coq kernel + vm_compute; hand transcription of pyiga/hierarchical.py (per-level closed form of the two '
                   'loops of HSpace.refine) validated by the exact correspondence run; harness generators, bit-mask encoding of sets '
                   '(injective for duplicate-free sets inside the index box; sizes compared too), geometric oracle. Not modelled: '
